@@ -422,6 +422,41 @@ example :
     (run [0, 1, 0]).sink.contents.count '\n' = 3 := by
   decide
 
+/-! ## 5b. `CompassApp::run`: every response handed back has its record — unless it failed input processing -/
+
+/-- Full statement wanted: *after `CompassApp::run` the file holds exactly one record per response of the
+    batch*.  False of the code when a query fails input processing (counterexample below): such responses
+    are chained onto the result without being handed to the sink.  Proved for batches whose queries all
+    pass the input plugins (`inputErrors = []`): the records appended are as many as the responses handed
+    back, they are the records of the batch, and the responses handed back are the amended batch. -/
+theorem app_file_has_one_record_per_response_partial (N : NumOps) (sink : FileSink)
+    (queues : List (List Json)) (schedule : List Nat) (hp : sink.poisoned = false)
+    (hw : ∀ r ∈ queues.flatten, Writable N sink.format r)
+    (hdone : ((Run.init sink queues).exec N true schedule).done = true) :
+    ∃ appended : List (List Char),
+      (appRun N true sink queues [] schedule).1.file = sink.file ++ appended ∧
+      appended.length = (appRun N true sink queues [] schedule).2.length ∧
+      appended.Perm (queues.flatten.map (recordOf N sink.format)) ∧
+      (appRun N true sink queues [] schedule).2.Perm (queues.flatten.map (postOf N sink.format)) := by
+  obtain ⟨app, hfile, hperm, hlen, _⟩ :=
+    complete_batch_file_is_multiset_of_records N true sink queues schedule hp hw hdone
+  have hret := returned_responses N true sink queues schedule hp hw hdone
+  simp only [if_true] at hret
+  refine ⟨app, by simpa [appRun] using hfile, ?_, hperm, by simpa [appRun] using hret⟩
+  simp only [appRun, List.append_nil]
+  rw [hlen, hret.length_eq, List.length_map]
+
+/-- DEFECT (key `app/input-error-response-not-written`): one good query and one that fails input processing
+(e.g. a query that is not a JSON object): two responses are handed back, the file gets one record -/
+theorem app_input_error_response_not_written_counterexample :
+    let sink : FileSink := { format := .json true, flushEvery := 1, file := [[]], iterations := 0, flushes := 0, poisoned := false }
+    let good := Json.obj [("request", .obj [("origin_vertex", .num "0" 0)]), ("route", .null)]
+    let bad := Json.obj [("request", .obj [("error", .str "unable to display query")]), ("error", .str "input plugin error")]
+    (appRun anyNum true sink [[good]] [bad] [0]).2.length = 2 ∧
+    (appRun anyNum true sink [[good]] [bad] [0]).1.file.length = 1 + 1 ∧
+    (appRun anyNum false sink [[good]] [bad] [0]).2.length = 1 := by
+  decide
+
 /-! ## 6. Repeated runs append -/
 
 /-- a second run on the file a first run left (`WriteMode::Append`, the mode `build` always uses) keeps every
